@@ -66,6 +66,66 @@ def aiaa_cases(repo):
     return out
 
 
+def exact_values(records):
+    """the report's equations at 60 digits for [{env, tau}] (checks/mpref_tool.py under python3-vt, which has mpmath);
+    None when the tool is not available"""
+    import json
+    import shutil
+    import subprocess
+    import tempfile
+    if not shutil.which("python3-vt"):
+        return None
+    d = tempfile.mkdtemp(prefix="verif-c01-mp-", dir="/var/tmp")
+    try:
+        with open(os.path.join(d, "in.json"), "w") as f:
+            json.dump([{"env": {k: repr(float(v)) for k, v in r["env"].items()}, "tau": repr(float(r["tau"]))} for r in records], f)
+        tool = os.path.join(os.path.dirname(os.path.abspath(__file__)), "mpref_tool.py")
+        try:
+            p = subprocess.run(["python3-vt", tool, os.path.join(d, "in.json"), os.path.join(d, "out.json")],
+                               capture_output=True, text=True, timeout=1500)
+        except subprocess.TimeoutExpired:
+            return None
+        if p.returncode != 0 or not os.path.exists(os.path.join(d, "out.json")):
+            return None
+        with open(os.path.join(d, "out.json")) as f:
+            return json.load(f)
+    finally:
+        shutil.rmtree(d, ignore_errors=True)
+
+
+def dist_exact(exact_strs, floats):
+    """|exact - float| without cancellation (decimal arithmetic at 60 digits)"""
+    from decimal import Decimal, getcontext
+    getcontext().prec = 60
+    return math.sqrt(sum(float((Decimal(a) - Decimal(repr(float(b)))) ** 2) for a, b in zip(exact_strs, floats)))
+
+
+def near180_cases(ctx, n):
+    """inclinations within 0.015 deg of 180 deg: 1 + cos i has lost up to all its digits in binary64 when written literally
+    (fixed: c31ed46); what remains after the fix is the rounding of the inclination itself, amplified by tan(i/2)"""
+    out = []
+    for j in range(n):
+        f = tlegen.random_fields(ctx.rng)
+        f["inc"] = [179.9999, 179.9995, 179.999, 179.995, 179.99, 179.985][j % 6]
+        l1, l2 = tlegen.make(**f)
+        out.append((l1, l2, ctx.rng.choice([0.0, ctx.rng.uniform(-1440, 1440)])))
+    return out
+
+
+def island_cases(ctx, n):
+    """the accepted high-eccentricity island (DESIGN section 9, N6): e0 >= 0.9993 with 3 cos^2 i < 1"""
+    out = []
+    for _ in range(n):
+        f = tlegen.random_fields(ctx.rng)
+        f["inc"] = ctx.rng.uniform(55.5, 124.5)
+        f["ecc"] = ctx.rng.randint(9993000, 9999989)
+        f["mm"] = ctx.rng.uniform(6.5, 17.9)
+        f["bstar"] = ctx.rng.choice([(0, 0, " "), (ctx.rng.randint(10000, 99999), -ctx.rng.randint(4, 6), ctx.rng.choice(" -"))])
+        l1, l2 = tlegen.make(**f)
+        out.append((l1, l2, ctx.rng.choice([0.0, ctx.rng.uniform(-1440, 1440), ctx.rng.uniform(-86400, 86400)])))
+    return out
+
+
 def run(ctx):
     from pyorbital import tlefile
     from pyorbital.orbital import Orbital
@@ -78,6 +138,7 @@ def run(ctx):
         "proved over the reals (props/C01_newton.v): for eL^2 <= 4/25 the regenerated iterates are the second-order step f / (f' + f'' f / 2f'), the first-step clamp is inactive, each step squares the error (factor 43/50), the sixth stopping test cannot fail, so exit 10 (no convergence, last iterate returned unchecked) is unreachable and the 1 mm / 1 um/s claim holds for EVERY answered propagation with a <= 4 (C01_answered_position_accuracy, both leaves)",
         "proved (C01_answered_when_healthy*, C01_iss_answered): decay guards, eL^2 <= 4/25 and osculating perigee >= 1.005 earth radii imply that the propagation IS answered; the ISS set at epoch meets every hypothesis of the accuracy theorem (interval arithmetic), so none of the theorems is vacuous; input-only form (C01_accuracy_at_epoch_or_drag_free): an accepted set with e0 <= 0.39 and TLE mean motion 6.4..18 rev/day, at epoch or drag-free at any time, is answered within 1 mm / 1 um/s of the report",
         "not proved: convergence of the Newton iteration for eL^2 > 4/25 (e above about 0.4); binary64 rounding -- both sampled by the oracle",
+        "exact oracle: a sample of the cases and an extra stratum on the accepted high-eccentricity island (e0 >= 0.9993) are compared with the report's equations evaluated at 60 digits (checks/mpref_tool.py under python3-vt/mpmath, the same source text as the binary64 reference); skipped, and said so, if python3-vt is missing",
         "translator trusted for 'emitted term = what the code computes over R'; self-checked each run against the interpreter (outcome class and state to 1e-6 km)",
     ]
     numeric.regen(ctx, "astronomy")
@@ -164,6 +225,59 @@ def run(ctx):
                            "times": "array of %d instants, 1 per %d min" % (len(mins), int(mins[1] - mins[0])), "pos_diff_km": dp, "vel_diff_kms": dv}
         if worst_k:
             ctx.violation("an element of an array-time answer differs from the Spacetrack Report #3 model by more than 1 mm / 1 um/s", worst_k)
+    # ---------------- exact oracle (60 digits), incl. the accepted high-eccentricity island ----------------
+    recs = []
+    for (l1, l2, minutes), island in [(c, False) for c in cases[:ctx.n(60, 300)] + near180_cases(ctx, ctx.n(36, 240))] + [(c, True) for c in island_cases(ctx, ctx.n(60, 600))]:
+        try:
+            tle = tlefile.Tle("X", line1=l1, line2=l2)
+            orb = Orbital("X", line1=l1, line2=l2)
+        except Exception:
+            continue
+        ep = tle.epoch.astype("datetime64[us]")
+        t = ep + np.timedelta64(int(minutes * 60e6), "us")
+        pclass, state = sgp4common.impl_prop(orb, t)
+        if pclass != "ok":
+            continue
+        recs.append({"env": sgp4common.tle_env(tle), "tau": float((t - ep) / np.timedelta64(1, "m")), "l1": l1, "l2": l2, "island": island,
+                     "pos": [float(x) for x in state[0]], "vel": [float(x) for x in state[1]]})
+    exact = exact_values(recs) if recs else []
+    if exact is None:
+        ctx.assumptions.append("EXACT ORACLE UNAVAILABLE on this run (python3-vt / mpmath): the 60-digit comparison was skipped")
+    else:
+        n_exact = n_island = 0
+        worst_ord = 0.0
+        for r, o in zip(recs, exact):
+            if "error" in o or not (0.5 <= float(o["a_ratio"]) <= 2.0):
+                continue
+            dp, dv = dist_exact(o["pos"], r["pos"]), dist_exact(o["vel"], r["vel"])
+            n_exact += 1
+            n_island += r["island"]
+            ctx.case(("exact", r["l1"], r["l2"], round(r["tau"], 6)))
+            if dp <= 1e-6 and dv <= 1e-9:
+                if not r["island"]:
+                    worst_ord = max(worst_ord, dp)
+                continue
+            # beyond 1 mm / 1 um/s.  One mechanism is known and delimited: eL -> 1 makes Kepler's equation ill-conditioned,
+            # binary64 rounding is amplified by 1 / (1 - eL) and the state vector itself is 1e6 .. 1e10 km long
+            eL = math.sqrt(float(o["eL2"]))
+            rr = math.sqrt(sum(float(x) ** 2 for x in o["pos"]))
+            vv = math.sqrt(sum(float(x) ** 2 for x in o["vel"]))
+            bound_p = 1000 * 2.0 ** -53 * rr / (1 - eL)
+            bound_v = 1000 * 2.0 ** -53 * vv / (1 - eL)
+            known = float(o["eL2"]) >= 0.9 and dp <= max(bound_p, 1e-6) and dv <= max(bound_v, 1e-9)
+            # second delimited mechanism: within 0.001 deg of 180 deg the long-period coefficient xlcof ~ tan(i/2) exceeds 30 and
+            # amplifies the half-ulp rounding of the inclination in radians (what is left after fix c31ed46: below 1 m)
+            incl = float(r["env"]["incl_deg"])
+            near180 = incl >= 179.999 and dp <= 1e-3 and dv <= 1e-6
+            sig = ("C01:binary64-conditioning:eL2>=0.9" if known else
+                   "C01:binary64-inclination-rounding:i>=179.999" if near180 else "C01:exact:%s:%.6f" % (r["l1"][2:7], r["tau"]))
+            ctx.violation("position/velocity differ from the exact (60-digit) Spacetrack Report #3 model by more than 1 mm / 1 um/s",
+                          {"signature": sig,
+                           "line1": r["l1"], "line2": r["l2"], "minutes": r["tau"], "pos_diff_km": dp, "vel_diff_kms": dv,
+                           "eL2": float(o["eL2"]), "distance_km": rr, "amplified_rounding_bound_km": bound_p})
+        ctx.extra["exact_oracle_compared"] = n_exact
+        ctx.extra["exact_oracle_island"] = n_island
+        ctx.extra["exact_oracle_worst_ordinary_pos_diff_km"] = worst_ord
     # ---------------- AIAA-2006-6753 verification vectors (5 mm) ----------------
     n_aiaa = 0
     worst_by_sat = {}
